@@ -327,7 +327,10 @@ fn launch_rdp_thread<S: 'static + Read + Write + Send>(
     bitmap_channel: Sender<BitmapEvent>) -> RdpResult<JoinHandle<()>> {
     // Create the rdp thread
     Ok(thread::spawn(move || {
-        while wait_for_fd(handle as usize) && sync.load(Ordering::Relaxed) {
+        // a PDU already buffered by the TLS layer will never make the socket readable
+        // (the lock is released before waiting on the socket)
+        let pending = |client: &Mutex<RdpClient<S>>| client.lock().unwrap().has_pending_data();
+        while (pending(&rdp_client) || wait_for_fd(handle as usize)) && sync.load(Ordering::Relaxed) {
             let mut guard = rdp_client.lock().unwrap();
             if let Err(error) = guard.read(|event| {
                 match event {
